@@ -17,22 +17,26 @@ HIST_ASSUME = ["the Lean model of BackupFS (Model/BackupFS.lean) and of Linux+Go
 
 PROPS = {
     "C05": {
-        "theorems": ["prefix_confines", "symlink_target_confined_partial", "symlink_target_confined_full_fails", "rejected_is_escape", "escaping_name_rejected"],
+        "theorems": ["prefix_confines", "symlink_target_confined_partial", "symlink_target_confined_full_fails", "rejected_is_escape", "escaping_name_rejected", "os_confined_linkfree", "os_confined_linkfree_strict", "os_confined_handle_writes", "symlink_created_inside_linkfree", "os_confined_with_inside_links_partial", "tame_step_partial", "os_confined_history_partial", "symlink_escapes_through_linked_parent", "symlink_escapes_after_rename"],
+        "extra_modules": ["C05D"],
         "streams": [{"name": "layers"}, {"name": "osmodel", "quick": ["-n", "400"], "thorough": ["-n", "6000"]}],
         "assumptions": LAYER_ASSUME + ["OS level: the osmodel stream in confine mode runs histories through a real PrefixFS(OSFS) over a temp directory whose initial tree holds no symlink (every link is created through the PrefixFS), with sentinel files in the directories above the prefix; escapes through relative links combined with symlinked directories or Rename are the open finding K-prefix-lexical-links"],
     },
     "C06": {
-        "theorems": ["isHidden_complete", "isHidden_complete_comparable", "hidden_never_delegated", "hidden_refused", "rename_refused", "symlink_refused", "refusal_classes"],
+        "theorems": ["isHidden_complete", "isHidden_complete_comparable", "hidden_never_delegated", "hidden_refused", "rename_refused", "symlink_refused", "refusal_classes", "hidden_outcome_independent_of_existence", "rename_hidden_on_every_state", "symlink_hidden_on_every_state", "hidden_subtree_untouched_linkfree", "hidden_subtree_untouched_any_spelling"],
+        "extra_modules": ["C06D"],
         "streams": [{"name": "layers"}, {"name": "osmodel", "quick": ["-n", "300"], "thorough": ["-n", "5000"]}],
         "assumptions": LAYER_ASSUME,
     },
     "C14": {
-        "theorems": ["reroot_exact", "symlink_readlink_roundtrip_abs", "symlink_readlink_roundtrip_rel", "readlink_no_leak"],
+        "theorems": ["reroot_exact", "symlink_readlink_roundtrip_abs", "symlink_readlink_roundtrip_rel", "readlink_no_leak", "reroot_effect_exact", "reroot_disk_exact", "reroot_mutator_exact", "prefixPost_spec"],
+        "extra_modules": ["C14D"],
         "streams": [{"name": "layers"}],
         "assumptions": LAYER_ASSUME,
     },
     "C15": {
-        "theorems": ["isHidden_sound", "visible_of_outside", "nonhidden_delegates", "arguments_unchanged", "removeAll_transparent_linkfree_partial"],
+        "theorems": ["isHidden_sound", "visible_of_outside", "nonhidden_delegates", "arguments_unchanged", "removeAll_transparent_linkfree_partial", "nonhidden_effect_equal", "hiddenPost_spec"],
+        "extra_modules": ["C15D"],
         "streams": [{"name": "layers"}, {"name": "osmodel", "quick": ["-n", "300"], "thorough": ["-n", "5000"]}],
         "assumptions": LAYER_ASSUME,
     },
